@@ -199,7 +199,8 @@ def check_category_gate(ctx, rule, gate: RowGate):
     # placeholder function
     rt = ctx.prog.func(f'{EXP}._retrieve_empty_token')
     p = rt.params[1]
-    sig = f'cls._is_token_in_a_signature_row({p})'
+    sigs = (f'cls._is_token_in_a_signature_row({p})',
+            f'TokenCategory.is_child(child={p}.token.category, parent=TokenCategory.SIGNATURES)')
     okp = True
     seen = set()
     for cond, val, sp in symex.returns(rt):
@@ -217,7 +218,8 @@ def check_category_gate(ctx, rule, gate: RowGate):
                 none_case = valn.get(f'{p} is None', False) or valn.get(f'{p}.token is None', False)
                 if none_case:
                     okp = okp and v == ''
-                elif sig in valn:
+                elif any(s_ in valn for s_ in sigs):
+                    sig = [s_ for s_ in sigs if s_ in valn][0]
                     okp = okp and v == ('*' if valn[sig] else '.')
                 else:
                     okp = False
